@@ -134,9 +134,12 @@ def generate(seed: int, tier: str = "quick") -> dict:
         rw, "drb0", world["n"], {token: path}, token=token, start=world["start"], expiries=["after_last"],
         max_levels={"any": 8, "thin": 1, "deep": 8}[shape],
         n_instruments=rw.choice([1, 2, 2, 3, 4, 6]),
+        basis=R.sub(seed, "basis").random() < 0.5,
     )
     world["markets"].append(mw)
     faults = []
+    if any(len({r["underlying"] for r in h["rows"].values()}) > 1 for h in mw["hours"]):
+        faults.append({"kind": "underlying_differs_per_instrument"})
     faults.append({"kind": {"thin": "book_thin", "deep": "book_many_levels", "any": "book_any"}[shape]})
     if mw["meta"]["size_kind"] != "int":
         faults.append({"kind": "book_float_sizes"})
